@@ -674,17 +674,18 @@ def _srcgen_stream():
 # runner
 
 N_SHARDS = 16
-# draws per shard (quick, thorough); a draw yields 1-5 templates (quick ~ 530 templates per shard, thorough ~ 12 000).
+# draws per shard (quick, thorough); a draw yields 1-5 templates (quick ~ 800 templates per shard, thorough ~ 12 000).
 # Measured single-process CPU cost per template: generation 4-8 ms, classification 2-5 ms, 7 x 2 compilations in the
-# workers ~ 20 ms, worker start-up 7 x 0.15 s per batch; all in all ~ 35 ms idle / ~ 55 ms on the loaded machine.
+# workers ~ 20 ms, worker start-up 7 x 0.15 s per batch; all in all ~ 45 ms on a quiet machine (quick ~ 600 CPU-s,
+# thorough ~ 9 000 CPU-s), up to 110 ms on the saturated one.
 SIZES = {
-    "stmt": (95, 1500),
-    "inherit": (30, 500),
-    "modules": (36, 600),
-    "local": (85, 1400),
-    "dense": (150, 2500),
-    "expr": (50, 800),
-    "grammar": (50, 800),
+    "stmt": (140, 1500),
+    "inherit": (45, 500),
+    "modules": (54, 600),
+    "local": (130, 1400),
+    "dense": (225, 2500),
+    "expr": (75, 800),
+    "grammar": (75, 800),
 }
 
 
